@@ -6,6 +6,7 @@ of `LookupPackage` + `LastPkg`, and the instantiation `ops : Ops Pkg` of the rec
 import Dblib.Model.ChanRx
 import Dblib.Model.Codec.Basic
 import Dblib.Model.Codec.Cursor
+import Dblib.Model.Codec.Fields
 import Dblib.Gen.TdsConsts
 
 namespace Dblib.Codec
@@ -29,6 +30,13 @@ inductive Pkg where
   | curFetch (c : Cursor.CurFetch)
   | curUpdate (c : Cursor.CurUpdate)
   | curDelete (c : Cursor.CurDelete)
+  | paramFmt (wide : Bool) (fs : List Fields.Fmt)
+  | rowFmt (wide : Bool) (fs : List Fields.Fmt)
+  /-- PARAMS (`kind = "params"`) / ROW (`kind = "row"`) with the format package it holds
+  (`row`: a RowFmtPackage, else a ParamFmtPackage; its `wide` flag; its formats) -/
+  | params (kind : String) (row wide : Bool) (fmts : List Fields.Fmt) (ds : List Fields.Data)
+  /-- ORDERBY / ORDERBY2 with the RowFmtPackage it references (wide flag, formats) -/
+  | orderBy (wide2 : Bool) (rowFmt : Option (Bool × List Fields.Fmt)) (cols : List Nat)
   | headerOnly (h : Header)
 
 def Pkg.show : Pkg → String
@@ -49,6 +57,10 @@ def Pkg.show : Pkg → String
   | .curFetch c => c.show
   | .curUpdate c => c.show
   | .curDelete c => c.show
+  | .paramFmt w fs => Fields.showFmtPkg false w fs
+  | .rowFmt w fs => Fields.showFmtPkg true w fs
+  | .params kind row w fmts ds => Fields.Row.show kind row w fmts ds
+  | .orderBy w2 _ cols => Fields.OrderBy.show w2 cols
   | .headerOnly h => s!"headeronly {h.msgType}"
 
 /-- lift a decoder into the sum type -/
@@ -83,7 +95,11 @@ def parsers : List (Nat × P Pkg) :=
     (Cursor.tokCurOpen, lift Cursor.CurOpen.dec .curOpen),
     (Cursor.tokCurFetch, lift Cursor.CurFetch.dec .curFetch),
     (Cursor.tokCurUpdate, lift Cursor.CurUpdate.dec .curUpdate),
-    (Cursor.tokCurDelete, lift Cursor.CurDelete.dec .curDelete) ]
+    (Cursor.tokCurDelete, lift Cursor.CurDelete.dec .curDelete),
+    (Fields.tokParamFmt, lift (Fields.ParamFmt.dec false) (.paramFmt false)),
+    (Fields.tokParamFmt2, lift (Fields.ParamFmt.dec true) (.paramFmt true)),
+    (Fields.tokRowFmt, lift (Fields.RowFmt.dec false) (.rowFmt false)),
+    (Fields.tokRowFmt2, lift (Fields.RowFmt.dec true) (.rowFmt true)) ]
 
 /-- the Go package type (and the `wide` flag `LookupPackage` passes) each entry of `parsers`
 transcribes, in the order of `parsers`; compared with the regenerated switch of `LookupPackage`
@@ -97,14 +113,51 @@ def parsersMeta : List (Nat × String × Bool) :=
     (0x86, "CurDeclarePackage", false), (0x10, "CurDeclarePackage", true),
     (0x83, "CurInfoPackage", false), (0x88, "CurInfoPackage", true),
     (0x84, "CurOpenPackage", false), (0x82, "CurFetchPackage", false),
-    (0x85, "CurUpdatePackage", false), (0x81, "CurDeletePackage", false) ]
+    (0x85, "CurUpdatePackage", false), (0x81, "CurDeletePackage", false),
+    (0xEC, "ParamFmtPackage", false), (0x20, "ParamFmtPackage", true),
+    (0xEE, "RowFmtPackage", false), (0x61, "RowFmtPackage", true) ]
+
+/-- the `LastPkgAcceptor`s: their parser depends on the preceding package (`select`) -/
+def acceptorsMeta : List (Nat × String × Bool) :=
+  [ (0xD7, "ParamsPackage", false), (0xD1, "RowPackage", false),
+    (0xA9, "OrderByPackage", false), (0x22, "OrderBy2Package", false) ]
 
 def findParser (t : Nat) : List (Nat × P Pkg) → P Pkg
   | [] => tokenless
   | (k, p) :: rest => if k = t then p else findParser t rest
 
+/-- the format `ParamsPackage.LastPkg(other)` takes over from the preceding package (row?, wide?,
+formats); `none` = it returns an error: `*ParamFmtPackage` / `*RowFmtPackage` themselves;
+`*ParamsPackage` → its `paramFmt`, `*RowPackage` → its `rowFmt` (a package of the one type holding the
+other kind of format hands over nil: "both paramFmt and rowFmt are nil"); `*OrderByPackage` /
+`*OrderBy2Package` → its `rowFmt`; any other package → error -/
+def heldFormat : Option Pkg → Option (Bool × Bool × List Fields.Fmt)
+  | some (.paramFmt w fs) => some (false, w, fs)
+  | some (.rowFmt w fs) => some (true, w, fs)
+  | some (.params "params" false w fs _) => some (false, w, fs)
+  | some (.params "row" true w fs _) => some (true, w, fs)
+  | some (.orderBy _ (some (w, fs)) _) => some (true, w, fs)
+  | _ => none
+
 /-- `LookupPackage(token)` + `LastPkg(lastPkgRx)` + `ReadFrom` -/
-def select (tok : UInt8) (_last : Option Pkg) : Sel Pkg := .parser (findParser tok.toNat parsers)
+def select (tok : UInt8) (last : Option Pkg) : Sel Pkg :=
+  let t := tok.toNat
+  if t = Fields.tokParams ∨ t = Fields.tokRow then
+    match heldFormat last with
+    | some (row, wide, fmts) =>
+      if Fields.Row.accepts fmts then
+        .parser (lift (Fields.Row.dec fmts) (.params (if t = Fields.tokRow then "row" else "params") row wide fmts))
+      else .lastErr                              -- `LookupFieldData` fails (cannot happen after a decoded format)
+    | none => .lastErr
+  else if t = Fields.tokOrderBy then
+    match last with
+    | some (.rowFmt w fs) => .parser (lift Fields.OrderBy.dec (.orderBy false (some (w, fs))))
+    | _ => .lastErr                              -- "received package other than RowFmtPackage"
+  else if t = Fields.tokOrderBy2 then
+    match last with
+    | some (.rowFmt w fs) => .parser (lift Fields.OrderBy2.dec (.orderBy true (some (w, fs))))
+    | _ => .lastErr
+  else .parser (findParser t parsers)
 
 /-- `strconv.Atoi` on the bytes of a string: optional sign, at least one digit, nothing else;
 values beyond int64 are errors -/
